@@ -161,10 +161,32 @@ Definition bcase_ok (c : list Z * Z * Z) : bool :=
   | None => false
   end.
 
-Inductive ccase := CRec (c : rcase) | CBday (c : list Z * Z * Z).
+(** branch state: window, calls on the real BranchRecoveryState
+    ((op, arg), (r1, r2), (NextUnfound, NumInvalidInHorizon, number of
+    addresses)); op 0 ExtendHorizon, 1 AddAddr, 2 ReportFound,
+    3 MarkInvalidChild.  The model replays the calls and must agree on every
+    returned value and on the three read-backs after every call. *)
+Definition brs_op := (N * N * (N * N) * (N * N * N))%type.
+Fixpoint brs_run (st : brs) (ops : list brs_op) : bool :=
+  match ops with
+  | [] => true
+  | (op, arg, (r1, r2), (nx, ninv, nadr)) :: rest =>
+    let '(st', ok) :=
+      match op with
+      | 0 => let '(s, (a, b)) := extend_horizon st in (s, (a =? r1) && (b =? r2))
+      | 1 => (add_addr arg st, true)
+      | 2 => (report_found arg st, true)
+      | _ => (mark_invalid_child arg st, true)
+      end in
+    ok && (next_unfound st' =? nx) && (num_invalid_in_horizon st' =? ninv) &&
+    (N.of_nat (length (b_addrs st')) =? nadr) && brs_run st' rest
+  end.
+Definition brs_ok (c : N * list brs_op) : bool := brs_run (new_brs (fst c)) (snd c).
+
+Inductive ccase := CRec (c : rcase) | CBday (c : list Z * Z * Z) | CBrs (c : N * list brs_op).
 
 Definition case_ok (c : ccase) : bool :=
-  match c with CRec r => rcase_ok r | CBday b => bcase_ok b end.
+  match c with CRec r => rcase_ok r | CBday b => bcase_ok b | CBrs b => brs_ok b end.
 
 Fixpoint mismatches_from {A} (f : A -> bool) (i : nat) (l : list A) : list nat :=
   match l with
